@@ -300,6 +300,9 @@ pub struct RawNode<T: Storage> {
     records: VecDeque<ReadyRecord>,
     // Index which the given committed entries should start from.
     commit_since_index: u64,
+    // Number of the latest Ready that handed out a term or vote change which has not
+    // been reported persisted yet (0 if there is none).
+    unpersisted_hs_number: u64,
 }
 
 impl<T: Storage> RawNode<T> {
@@ -315,6 +318,7 @@ impl<T: Storage> RawNode<T> {
             max_number: 0,
             records: VecDeque::new(),
             commit_since_index: config.applied,
+            unpersisted_hs_number: 0,
         };
         rn.prev_hs = rn.raft.hard_state();
         rn.prev_ss = rn.raft.soft_state();
@@ -515,6 +519,7 @@ impl<T: Storage> RawNode<T> {
         if hs != self.prev_hs {
             if hs.vote != self.prev_hs.vote || hs.term != self.prev_hs.term {
                 rd.must_sync = true;
+                self.unpersisted_hs_number = self.max_number;
             }
             rd.hs = Some(hs);
         }
@@ -552,7 +557,10 @@ impl<T: Storage> RawNode<T> {
 
         // Leader can send messages immediately to make replication concurrently.
         // For more details, check raft thesis 10.2.1.
-        rd.is_persisted_msg = raft.state != StateRole::Leader;
+        // This only holds once the term and vote that made it leader are persisted: a node
+        // whose own vote is a quorum becomes leader before they are, and its messages must
+        // then wait like those of a non-leader.
+        rd.is_persisted_msg = raft.state != StateRole::Leader || self.unpersisted_hs_number != 0;
         rd.light = self.gen_light_ready();
         self.records.push_back(rd_record);
         rd
@@ -624,6 +632,9 @@ impl<T: Storage> RawNode<T> {
     /// [`Self::has_ready`] and [`Self::ready`] should be called later to handle further
     /// updates that become valid after ready being persisted.
     pub fn on_persist_ready(&mut self, number: u64) {
+        if number >= self.unpersisted_hs_number {
+            self.unpersisted_hs_number = 0;
+        }
         let (mut index, mut term) = (0, 0);
         let mut snap_index = 0;
         while let Some(record) = self.records.front() {
